@@ -146,7 +146,7 @@ type plainWriter struct {
 	body   []byte
 }
 
-func newPlainWriter() *plainWriter { return &plainWriter{h: http.Header{}} }
+func newPlainWriter() *plainWriter         { return &plainWriter{h: http.Header{}} }
 func (w *plainWriter) Header() http.Header { return w.h }
 func (w *plainWriter) WriteHeader(code int) {
 	if w.status == 0 && (code < 100 || code > 199 || code == 101) {
@@ -260,6 +260,19 @@ func decodeProbe(p []any, g *matchGen) (h, pi int, presc outcome) {
 	return
 }
 
+// derivedDetours: routes next to the table's own (a longer hostname, a longer label, a longer or deeper path) that a
+// mutation history registers and removes again, so that the splits and merges happen at the table's nodes.
+func derivedDetours(pats []string) []string {
+	var out []string
+	for _, p := range pats {
+		if i := strings.IndexByte(p, '/'); i > 0 {
+			out = append(out, p[:i]+".c/x", p[:i]+"c/x", p[:i]+".c"+p[i:])
+		}
+		out = append(out, p+"x", strings.TrimSuffix(p, "/")+"/x")
+	}
+	return out
+}
+
 type matchReplayer struct {
 	r       *Run
 	g       *matchGen
@@ -316,6 +329,13 @@ func (m *matchReplayer) replayTable(v matchVec, pats []string, rng *rand.Rand) {
 			return
 		}
 	}
+	// the same table reached through a mutation history (random order, deletions and re-insertions, updates, aborted
+	// transactions, detours through routes that extend the table's patterns and hostnames and are removed again)
+	hist, err := buildByHistory(rng, pats, derivedDetours(pats), m.method)
+	if err != nil {
+		m.report("Handle (mutation history)", pats, "", "", "table accepted", err.Error())
+		return
+	}
 	rtx := plain.Txn(false)
 	defer rtx.Abort()
 	it := plain.Iter()
@@ -340,6 +360,7 @@ func (m *matchReplayer) replayTable(v matchVec, pats []string, rng *rand.Rand) {
 		}
 		chk("Router.Lookup", obtainLookup(plain, m.method, host, path), true)
 		chk("Router.Reverse", obtainReverse(plain, m.method, host, path), false)
+		chk("Router(after a mutation history).Lookup", obtainLookup(hist, m.method, host, path), true)
 		chk("Txn(read).Lookup", obtainLookup(rtx, m.method, host, path), true)
 		chk("Txn(read).Reverse", obtainReverse(rtx, m.method, host, path), false)
 		chk("Txn(write).Lookup", obtainLookup(wtx, m.method, host, path), true)
